@@ -381,6 +381,26 @@ Example ex_typed :
   build_err_t ex_forest [0; 0] [(1, (1, (0, 0)))] = true.
 Proof. vm_compute. repeat split; reflexivity. Qed.
 
+(* ... three levels: graph 0 declares state, its nested graph 1 declares its own, graph 2 nested
+   in graph 1 declares none: the instances of graphs 1 and 2 both see the object made by the
+   generator of graph 1 (the NEAREST one), the instance of graph 0 sees its own *)
+Definition ex_forest3 : forest :=
+  [ mkGraph MPregel true [ mkNode 1 false false (Some 1%nat) 0%nat [] ];
+    mkGraph MDag true [ mkNode 2 false false (Some 2%nat) 0%nat [] ];
+    mkGraph MPregel false [ mkNode 3 false false None 1%nat [] ] ].
+Example ex_typed_nested :
+  nest_ok ex_forest3 = true /\
+  map (owner_of ex_forest3) [0%nat; 1%nat; 2%nat] = [Some 0%nat; Some 1%nat; Some 1%nat] /\
+  must_fail_t ex_forest3 [0; 1; 0] [(3, (0, (0, 1)))] = false /\
+  must_fail_t ex_forest3 [0; 1; 0] [(3, (0, (0, 0)))] = true /\
+  match drive ex_forest3 ex_x0 1 [IEv (mkEv 0 3 (KBody 0) 1 ex_x0 (fst (cs_fun (KBody 0) 3 ex_x0 (gen_state 1))) 1000%Z)] with
+  | DOk c => map (@i_obj sstate X) (c_insts c) = [Some 0%nat; Some 1%nat; Some 1%nat] /\
+             lookup_ok ex_forest3 c = true /\
+             map (fun r => s_total (o_val r)) (c_objs c) = [0%Z; 1001%Z]
+  | DBad _ => False
+  end.
+Proof. vm_compute. repeat split; reflexivity. Qed.
+
 (* drive: replaying the log of the interleaved example run reproduces that run's log, values
    and final state (the replay accepts what the system itself produces) *)
 Example ex_drive_roundtrip :
